@@ -200,7 +200,7 @@ func c01WUnit(p c01WParams) *explore.Unit {
 			return &explore.Finding{Class: "request-failed-on-healthy-cluster", Msg: fmt.Sprintf("%v / %v\n%s", e1, e2, p)}
 		}
 		for _, a := range cl.Attempts {
-			if a.Outcome == sim.ClsNSRE {
+			if a.Misrouted() {
 				return &explore.Finding{Class: "request-sent-to-region-or-server-not-owning-the-key",
 					Msg: fmt.Sprintf("%s %q was addressed to region %q on %s, which does not own it\n%s", a.Kind, a.Row, a.Region, a.Server, p)}
 			}
@@ -692,7 +692,7 @@ func cacheRegionsUnits(thorough bool) []*explore.Unit {
 					return &explore.Finding{Class: "request-failed-on-healthy-cluster", Msg: fmt.Sprintf("%v", errs)}
 				}
 				for _, a := range w.cl.Attempts {
-					if a.Outcome == sim.ClsNSRE {
+					if a.Misrouted() {
 						return &explore.Finding{Class: "request-sent-to-region-or-server-not-owning-the-key", Msg: fmt.Sprintf("%+v", a)}
 					}
 				}
